@@ -569,6 +569,20 @@ def main(argv):
             raise Broken("property script did not call ctx.finish")
         return rc
     except Broken as ex:
+        if ctx.violations:
+            # a violation already observed on the real code stands even if a later step of the check
+            # could not be completed (e.g. the changed code also makes a later harness run out of time)
+            print("NOTE property=%s: a later step of the check broke after violations were recorded: %s" % (
+                a.pid, str(ex).splitlines()[0][:300]), flush=True)
+            ctx.notes.append("later step broke: " + str(ex).splitlines()[0][:300])
+            try:
+                return ctx.finish(level="model_checking", rule="incomplete run: stopped after recorded violations",
+                                  assumptions=["run aborted by a broken later step after violations were recorded"])
+            except Exception:
+                for key, what, path in ctx.violations[:6]:
+                    print("VIOLATION property=%s replay=%s  (%s: %s)" % (a.pid, path, key, what[:300]), flush=True)
+                ctx.cleanup()
+                return 1
         print("BROKEN property=%s: %s" % (a.pid, ex), flush=True)
         ctx.cleanup()
         return 2
